@@ -592,7 +592,10 @@ def apply_op(fx: Fixture, op, rng=None) -> Step:
         if name == 'setint':
             target[op['i']] = real[0]
         elif name == 'setslice':
-            target[op['a']:op['b']:op['c']] = real
+            if op.get('rhs_live') and list(target) == list(real):
+                target[op['a']:op['b']:op['c']] = target       # the live view as its own right-hand side
+            else:
+                target[op['a']:op['b']:op['c']] = real
         elif name == 'delint':
             del target[op['i']]
         elif name == 'delslice':
@@ -990,6 +993,13 @@ def gen_op(rng, fx: Fixture, ids, allow_errors=True):
             else:
                 m = ln if rng.random() < 0.75 else rng.choice([0, 1, 2, 3])
             op['vals'] = fresh_vals(min(m, 6))
+            if vd is not None and vd.conv == 'str' and 2 <= n <= 6 and rng.random() < 0.12:
+                # the right-hand side is the live view itself: `v[::-1] = v` reverses v, as for a plain list (the batch is
+                # taken before anything is written)
+                cur = [x for x in its if ty_of(x) in vd.tys]
+                op['a'], op['b'], op['c'] = None, None, rng.choice([-1, -1, None, 1])
+                op['vals'] = [[ty_of(x), val_of(x), ids()] for x in cur]
+                op['rhs_live'] = True
             if vd is None and allow_errors and rng.random() < 0.06:
                 op['reuse'] = rng.randrange(0, 8)
                 op['reuse_at'] = rng.randrange(0, 3)
